@@ -215,6 +215,25 @@ func c09ShapeFams() []c09Fam {
 			out = append(out, c09Fam{"xss", scaleFam{"<a ", u, tailSuffix(t)}})
 		}
 	}
+	// a keyword, then ONE long token, then a long foldable run: a rule that
+	// re-measures the long token each time the folder comes back to it
+	for _, k := range []string{"1 collate ", "1 like ", "1 not in ", "1 union select ", "select ", "1 into outfile ", "exec ", "declare @", "1;if ", "1 binary ", "user ", "1 in (", "1 between ", "cast(", "1 or @", "1 or `", "1 or '", "1 or [", "1 or 0x", "1 or $", "1 /*", "1 or q'(", "a.", "1 as ", "1 is not "} {
+		for _, u := range []string{"a", "1"} {
+			for _, t := range []string{"(", ",1", " a", "+1", ")", ";"} {
+				out = append(out, c09Fam{"sqli", scaleFam{k, u, tailSuffix(t)}})
+			}
+		}
+	}
+	// one long tag or attribute name, then many attributes with a listed name
+	names := []string{"style", "onclick", "onerror", "x"}
+	for _, a := range li.VerifBlacks() {
+		names = append(names, strings.ToLower(a.Name))
+	}
+	for _, nm := range names {
+		out = append(out, c09Fam{"xss", scaleFam{"<", "b", tailSuffix(" "+nm+"=x") + ">"}})
+		out = append(out, c09Fam{"xss", scaleFam{"<a ", "b", tailSuffix(" "+nm+"=x") + ">"}})
+		out = append(out, c09Fam{"xss", scaleFam{"<a " + nm + "='", "b", tailSuffix("' "+nm+"='c") + "'>"}})
+	}
 	// separator variants of multi-byte units: '/' , NUL, TAB, LF instead of the blank
 	for _, fm := range c09Catalogue() {
 		if len(fm.f.unit) < 3 || !strings.Contains(fm.f.unit, " ") || fm.f.suffix != "" {
@@ -310,7 +329,7 @@ func c09ParseCase(c core.Case) (c09Fam, int, bool) {
 func c09() *core.Check {
 	ch := &core.Check{
 		ID: "C09",
-		Rule: "scaling experiment per input family (a hand-written catalogue of every construct repeated / nested / left unterminated, behind 4 SQL prefixes, each detector also on the other's constructs, and every family again with its one-character names / bodies / numbers grown to 8 and 40 characters; thorough: plus prefix.(a.b)^n for every ordered pair of atoms and six prefixes): thread CPU time (min of k calls) at n, 4n, 16n bytes. " +
+		Rule: "scaling experiment per input family (a hand-written catalogue of every construct repeated / nested / left unterminated, behind 4 SQL prefixes, each detector also on the other's constructs, and every family again with its one-character names / bodies / numbers grown to 8 and 40 characters; a keyword followed by one long token and a long foldable run (25 x 2 x 6), escaped quotes behind double-byte lead bytes, one long tag or attribute name followed by many attributes with each listed name; thorough: plus prefix.(a.b)^n for every ordered pair of atoms and six prefixes): thread CPU time (min of k calls) at n, 4n, 16n bytes. " +
 			"Violation = growth over the 16x range >= 64 (exponent >= 1.5; linear code measures 13-24, the quadratic scanners 139-360) with t(16n) >= 5 ms, or more than 2 us per input byte, reproduced twice alone in a fresh process with k=7; growth <= 40 is held; in between the family is measured again alone after the parallel phase, and is inconclusive only if it stays in between. Non-trivial = families with a completed three-point measurement; distinct by family.",
 		Assumptions: []string{
 			"thread CPU time of a goroutine locked to its OS thread, minimum of k calls (GC stays enabled at GOGC=400: its assist cost is proportional to allocation, hence to input length)",
